@@ -127,6 +127,26 @@ fn send_raw(w: &mut World, from: usize, chan: usize, hash: PaymentHash, onion: R
 	found.ok_or_else(|| "no update_add_htlc queued".to_string())
 }
 
+/// `Net::settle`, with the receiver's persister in InProgress mode: monitor updates of the receiver's
+/// channels are completed at once except on the channels in `hold`
+fn settle_holding(net: &mut Net, hold: &BTreeSet<usize>) {
+	for _ in 0..80 {
+		let mut moved = false;
+		while let Some((i, j)) = net.any_queued() { net.deliver(i, j); moved = true; }
+		for c in 0..net.chans.len() {
+			if hold.contains(&c) { continue; }
+			for id in net.pending_updates(RECV, c) { if net.complete(RECV, c, id) { moved = true; } }
+		}
+		for i in 0..net.nodes.len() {
+			if net.nodes[i].node.needs_pending_htlc_processing() { net.forward(i); moved = true; }
+			let before = net.trace.len();
+			net.process_events(i);
+			if net.trace.len() != before { moved = true; }
+		}
+		if !moved { break; }
+	}
+}
+
 // ------------------------------------------------------------------------------------------------
 // observations
 // ------------------------------------------------------------------------------------------------
@@ -408,6 +428,68 @@ impl Scn {
 		}
 	}
 
+	/// `claim` whose monitor updates stay InProgress on the channel(s) of the set while a new part for
+	/// the same hash arrives over another channel (pending_claiming_payments still has the hash), then
+	/// the updates complete.  Emitted as `claim` (fulfils + claimed), `part` (the late part), `claimdone`.
+	/// Effects are attributed by HTLC id: whatever happens to the late part belongs to the `part` line.
+	fn op_claim_with_late_part(&mut self, w: &mut World, rec: &mut Rec, known: bool, late: &PartSpec) {
+		if self.dead { return; }
+		let hold: BTreeSet<usize> = w.routes.iter().map(|r| r.1).filter(|c| self.held.iter().any(|h| h.id / 1_000_000 == w.rank[*c])).collect();
+		let (from, chan) = w.routes[late.route % w.routes.len()];
+		if hold.contains(&chan) || self.held.is_empty() { self.op_claim(w, rec, known); return; }
+		let (tpos, epos) = (w.net.trace.len(), w.net.events[RECV].len());
+		let height = w.height();
+		let pre = self.preimage;
+		let claim_op = format!("claim {}", known as u8);
+		let r = guarded(AssertUnwindSafe(|| {
+			w.net.set_mode(RECV, true);
+			let n = w.net.nodes[RECV].node;
+			if known { n.claim_funds_with_known_custom_tlvs(pre) } else { n.claim_funds(pre) }
+			w.net.pump_all();
+			settle_holding(&mut w.net, &hold);
+		}));
+		if let Err(m) = r { w.bad = true; self.dead = true; rec.case(&claim_op, &format!("panic {}", short(&m)), "claim:panic", true); return; }
+		let early = observe(w, &self.hash, tpos, epos);
+		// the late part
+		let onion = self.onion(late, self.secrets[late.sec % self.secrets.len()]);
+		let hash = self.hash;
+		let sent = guarded(AssertUnwindSafe(|| send_raw(w, from, chan, hash, onion, late.amt, late.delta)));
+		let add = match sent { Ok(Ok(a)) => Some(a), Ok(Err(_)) => None, Err(_) => { w.bad = true; None } };
+		let late_id = add.as_ref().map(|a| w.rank[chan] * 1_000_000 + a.htlc_id);
+		let r = guarded(AssertUnwindSafe(|| {
+			settle_holding(&mut w.net, &hold);
+			w.net.set_mode(RECV, false);
+			for _ in 0..10 {
+				let mut any = false;
+				for c in hold.iter() { for id in w.net.pending_updates(RECV, *c) { any |= w.net.complete(RECV, *c, id); } }
+				w.net.settle(60);
+				if !any { break; }
+			}
+		}));
+		if let Err(m) = r { w.bad = true; self.dead = true; rec.case(&claim_op, &format!("panic {}", short(&m)), "claim:panic", true); return; }
+		let all = observe(w, &self.hash, tpos, epos);
+		let mut of_claim = Seen::default(); let mut of_part = Seen::default();
+		for i in &all.fails { if Some(*i) == late_id { of_part.fails.push(*i) } else { of_claim.fails.push(*i) } }
+		for i in &all.fulfils { if Some(*i) == late_id { of_part.fulfils.push(*i) } else { of_claim.fulfils.push(*i) } }
+		of_claim.claimed = all.claimed.clone();
+		of_part.claimable = all.claimable.clone();
+		if !early.nothing() { rec.oracle_fail(format!("[{}] `{}` with its monitor updates still in progress already produced {}", self.kind, claim_op, early.answer())); }
+		self.claim_oracles(w, rec, &of_claim, &claim_op, height, known);
+		rec.case(&claim_op, &of_claim.answer(), if !of_claim.fulfils.is_empty() { "claim:fulfil-async" } else if !of_claim.fails.is_empty() { "claim:failall" } else { "claim:none" }, true);
+		if let (Some(a), Some(id)) = (add, late_id) {
+			let ev = late.tlv.even();
+			let tag = (late.sec % self.secrets.len()) as u64 * 1000 + match ev { None => 1, Some(v) => 2 + v as u64 };
+			let op = format!("part {} {} {} {} {} {} {}", id, a.amount, late.amt, late.total, a.cltv, tag, ev.is_some() as u8);
+			if !of_part.fulfils.is_empty() || !of_part.claimable.is_empty() { rec.oracle_fail(format!("[{}] `{}` arriving while the payment is being claimed produced {}", self.kind, op, of_part.answer())); }
+			if of_part.fails.is_empty() { self.held.push(Held { id, value: a.amount, intended: late.amt, total: late.total, cltv: a.cltv }); }
+			rec.case(&op, &of_part.answer(), if of_part.fails.is_empty() { "part:held-during-claim" } else { "part:rejected-during-claim" }, true);
+		} else { self.dead = true; rec.discarded += 1; }
+		let claimed = !all.claimed.is_empty();
+		self.absorb(w, rec, &all, &claim_op);
+		self.claimable_set = None;
+		if claimed { rec.case("claimdone", "none", "claimdone", false); }
+	}
+
 	fn op_failback(&mut self, w: &mut World, rec: &mut Rec) {
 		if self.dead { return; }
 		let (tpos, epos) = (w.net.trace.len(), w.net.events[RECV].len());
@@ -536,7 +618,7 @@ fn send_all(w: &mut World, rec: &mut Rec, rng: &mut Rng, s: &mut Scn, parts: &[P
 
 const KINDS: &[(&str, u64)] = &[
 	("exact", 22), ("overlast", 6), ("tick-between", 10), ("under", 9), ("over", 9), ("bad-total", 8), ("tlv-mix", 10), ("even-all", 8),
-	("secret-mix", 6), ("deadline", 12), ("unmodelled", 9),
+	("secret-mix", 6), ("deadline", 12), ("unmodelled", 9), ("during-claim", 7),
 ];
 /// schedules that leave HTLCs stuck in the receiver's channels: run as the last scenario of a network
 const LAST_KINDS: &[&str] = &["claim-incomplete", "deadline-drop", "under-claim"];
@@ -593,7 +675,10 @@ fn run_scenario(w: &mut World, rec: &mut Rec, rng: &mut Rng, kind: &'static str,
 			let min = pick_min(rng, total);
 			let mut s = Scn::new(w, rec, rng, kind, min, false, 7200);
 			let mut g = Gen { rng: &mut *rng, routes: nroutes };
-			let parts = g.parts(&amts, total, Tlv::No, false);
+			let mut parts = g.parts(&amts, total, Tlv::No, false);
+			// claim_funds on an incomplete set whose parts are not in (channel_id, htlc_id) order trips a
+			// debug_assert (see probe_unsorted_incomplete_claim): keep arrival order sorted for the claiming kinds
+			if kind != "under" { parts.sort_by_key(|p| w.rank[w.routes[p.route % nroutes].1]); }
 			let blocks = rng.chance(1, 4);
 			send_all(w, rec, rng, &mut s, &parts, blocks);
 			if kind == "under" {
@@ -724,6 +809,34 @@ fn run_scenario(w: &mut World, rec: &mut Rec, rng: &mut Rng, kind: &'static str,
 			}
 			s.finish(w);
 		},
+		"during-claim" => {
+			// the whole set arrives over ONE channel; a late part comes over another one while the claim is in flight
+			let k = 1 + rng.below(2) as usize;
+			let total = pick_total(rng, k);
+			let amts = split(rng, total, k);
+			let min = pick_min(rng, total);
+			let ev = rng.chance(1, 4);
+			let tlv = if ev { Tlv::Even(3) } else { Tlv::No };
+			let mut s = Scn::new(w, rec, rng, kind, min, false, 7200);
+			let mut g = Gen { rng: &mut *rng, routes: nroutes };
+			let mut parts = g.parts(&amts, total, tlv, false);
+			let r0 = parts[0].route;
+			for p in parts.iter_mut() { p.route = r0; }
+			if send_all(w, rec, rng, &mut s, &parts, false) == PartOut::Claimable {
+				let mut g = Gen { rng: &mut *rng, routes: nroutes };
+				let amt = if g.rng.chance(1, 2) { total } else { 1000 + g.rng.below(total) };
+				let mut late = g.parts(&[amt], total, tlv, true).remove(0);
+				late.route = (r0 + 1 + rng.below(nroutes as u64 - 1) as usize) % nroutes;
+				s.op_claim_with_late_part(w, rec, ev || rng.chance(1, 5), &late);
+				// afterwards the hash is free again
+				if !s.dead && rng.chance(1, 2) {
+					let mut g = Gen { rng: &mut *rng, routes: nroutes };
+					let p = g.parts(&[total], total, Tlv::No, true).remove(0);
+					if s.op_part(w, rec, &p) == PartOut::Claimable { if rng.chance(1, 2) { s.op_claim(w, rec, false) } else { s.op_failback(w, rec) } }
+				}
+			}
+			s.finish(w);
+		},
 		"unmodelled" => {
 			let total = pick_total(rng, 2) + 2;
 			let amts = split(rng, total, 2);
@@ -765,9 +878,10 @@ fn run_scenario(w: &mut World, rec: &mut Rec, rng: &mut Rng, kind: &'static str,
 /// parts with different `total_value_received` reach `claim_payment_internal` (its `debug_assert!(false)` branch)
 fn probe_inconsistent_claim(rng: &mut Rng) -> String {
 	let mut w = match build_world(rng, true) { Ok(w) => w, Err(e) => return format!("could not build the network: {}", short(&e)) };
-	let mut scratch = Rec::new(&std::env::temp_dir().join(format!("c04mpp-probe-{}", std::process::id())), "probe1");
+	let mut scratch = Rec::new(&probe_dir(), "probe1");
 	let mut s = Scn::new(&mut w, &mut scratch, rng, "probe", None, false, 7200);
 	let total = 300_000;
+	// the surviving part and the late part share a channel, so that the set stays in (channel_id, htlc_id) order
 	let a = PartSpec { route: 0, amt: 100_000, total, delta: 60, sec: 0, tlv: Tlv::No };
 	let b = PartSpec { route: 1, amt: 200_000, total, delta: 66, sec: 0, tlv: Tlv::No };
 	s.op_part(&mut w, &mut scratch, &a);
@@ -775,7 +889,7 @@ fn probe_inconsistent_claim(rng: &mut Rng) -> String {
 	let d = s.deadline.unwrap_or(0);
 	s.blocks_to(&mut w, &mut scratch, d);
 	if s.held.len() != 1 { std::mem::forget(w); return format!("set-up failed: {} parts left after the deadline block", s.held.len()); }
-	let c = PartSpec { route: 0, amt: 50_000, total, delta: 70, sec: 0, tlv: Tlv::No };
+	let c = PartSpec { route: 1, amt: 50_000, total, delta: 70, sec: 0, tlv: Tlv::No };
 	let o = s.op_part(&mut w, &mut scratch, &c);
 	if o != PartOut::Held { std::mem::forget(w); return format!("set-up failed: the late part was {:?}", o); }
 	let (tpos, epos) = (w.net.trace.len(), w.net.events[RECV].len());
@@ -789,10 +903,35 @@ fn probe_inconsistent_claim(rng: &mut Rng) -> String {
 	out
 }
 
+/// claim_funds on an INCOMPLETE set whose parts arrived out of (channel_id, htlc_id) order:
+/// `begin_claiming_payment` -> `inbound_payment_id` -> `PaymentId::for_inbound_from_htlcs` (`debug_assert!(prev < ..)`)
+fn probe_unsorted_incomplete_claim(rng: &mut Rng) -> String {
+	let mut w = match build_world(rng, true) { Ok(w) => w, Err(e) => return format!("could not build the network: {}", short(&e)) };
+	let mut scratch = Rec::new(&probe_dir(), "probe3");
+	let mut s = Scn::new(&mut w, &mut scratch, rng, "probe", None, false, 7200);
+	let total = 300_000;
+	// first the channel with the larger channel_id, then the smaller one
+	let hi = if w.rank[w.routes[0].1] > w.rank[w.routes[1].1] { 0 } else { 1 };
+	let a = PartSpec { route: hi, amt: 100_000, total, delta: 80, sec: 0, tlv: Tlv::No };
+	let b = PartSpec { route: 1 - hi, amt: 100_000, total, delta: 80, sec: 0, tlv: Tlv::No };
+	if s.op_part(&mut w, &mut scratch, &a) != PartOut::Held || s.op_part(&mut w, &mut scratch, &b) != PartOut::Held { std::mem::forget(w); return "set-up failed: the two parts were not held".into(); }
+	let (tpos, epos) = (w.net.trace.len(), w.net.events[RECV].len());
+	let pre = s.preimage;
+	let r = s.drive(&mut w, |w| w.net.nodes[RECV].node.claim_funds(pre));
+	let out = match r {
+		Err(m) => format!("panicked in claim_funds: {}", short(&m)),
+		Ok(()) => format!("no panic; claim_funds -> {} (both HTLCs stay pending in their channels)", observe(&w, &s.hash, tpos, epos).answer()),
+	};
+	std::mem::forget(w);
+	out
+}
+
+fn probe_dir() -> std::path::PathBuf { std::env::temp_dir().join(format!("c04mpp-probe-{}", std::process::id())) }
+
 /// a complete, unclaimed payment receives 256 timer ticks (`MppPart::timer_ticks: u8`, `+= 1` per tick)
 fn probe_timer_ticks(rng: &mut Rng) -> String {
 	let mut w = match build_world(rng, true) { Ok(w) => w, Err(e) => return format!("could not build the network: {}", short(&e)) };
-	let mut scratch = Rec::new(&std::env::temp_dir().join(format!("c04mpp-probe-{}", std::process::id())), "probe2");
+	let mut scratch = Rec::new(&probe_dir(), "probe2");
 	let mut s = Scn::new(&mut w, &mut scratch, rng, "probe", None, false, 7200);
 	let a = PartSpec { route: 0, amt: 100_000, total: 100_000, delta: 100, sec: 0, tlv: Tlv::No };
 	if s.op_part(&mut w, &mut scratch, &a) != PartOut::Claimable { std::mem::forget(w); return "set-up failed: the part did not become claimable".into(); }
@@ -850,6 +989,9 @@ pub fn mpp_model(args: &Args) {
 	// probes
 	let p1 = probe_inconsistent_claim(&mut rng);
 	let p2 = probe_timer_ticks(&mut rng);
+	let p3 = probe_unsorted_incomplete_claim(&mut rng);
+	let _ = std::fs::remove_dir_all(probe_dir());
+	rec.notes.insert("probe_unsorted_incomplete_claim".into(), p3);
 	rec.notes.insert("probe_inconsistent_claim".into(), p1);
 	rec.notes.insert("probe_timer_ticks_u8".into(), p2);
 	let ks: Vec<String> = kinds.iter().map(|(k, v)| format!("{}={}", k, v)).collect();
